@@ -29,6 +29,11 @@ def parsePre : List String → Option (List (Acct × Int))
       | _, _, _ => none
     | _ => none
 
+def parseFlag : String → Option Bool
+  | "0" => some false
+  | "1" => some true
+  | _ => none
+
 def statusStr : Status → String
   | .voting => "V"
   | .cancelled => "C"
@@ -51,7 +56,13 @@ def dump (w : World) : String :=
     fun (p, x) => s!" P{p}={statusStr x.status}/{x.votes}/{x.proposer}"
   let locks := (sortBy (fun (a b : (Nat × Acct) × Int) => a.1.1 < b.1.1 || (a.1.1 == b.1.1 && a.1.2 < b.1.2)) w.locks).map
     fun ((p, a), n) => s!" L{p}.{a}={n}"
-  s ++ d ++ String.join bals ++ " |" ++ String.join props ++ " |" ++ String.join locks ++ s!" | T={w.tasks.length}"
+  let noms := (sortBy (fun (a b : Acct × (Acct × Int)) => a.1 < b.1) w.td.nom).map
+    fun (c, (i, n)) => s!" N{c}={i}/{n}"
+  let flat : List ((Acct × Acct) × Int) := w.td.votes.flatMap fun (c, vm) => vm.map fun (v, n) => ((c, v), n)
+  let votes := (sortBy (fun (a b : (Acct × Acct) × Int) => a.1.1 < b.1.1 || (a.1.1 == b.1.1 && a.1.2 < b.1.2)) flat).map
+    fun ((c, v), n) => s!" V{c}.{v}={n}"
+  s ++ d ++ String.join bals ++ " |" ++ String.join props ++ " |" ++ String.join locks ++ s!" | T={w.tasks.length} |"
+    ++ String.join noms ++ " |" ++ String.join votes ++ s!" | H={w.tip}"
 
 def parseCall : List String → Option Call
   | ["init", a] => a.toNat?.map fun _ => .init
@@ -88,7 +99,30 @@ def parseCall : List String → Option Call
     match parseVia v, pid.toNat? with
     | some c, some pid => some (.trigger c pid)
     | _, _ => none
+  | ["seal"] => some .newBlock
+  | ["nominate", i, c, n, auth, h] =>
+    match i.toNat?, c.toNat?, n.toInt?, parseFlag auth, h.toInt? with
+    | some i, some c, some n, some auth, some h => some (.nominate i c n auth h)
+    | _, _, _, _, _ => none
+  | ["revnom", i, c, h] =>
+    match i.toNat?, c.toNat?, h.toInt? with
+    | some i, some c, some h => some (.revokeNominate i c h)
+    | _, _, _ => none
+  | ["tvote", i, c, n, h] =>
+    match i.toNat?, c.toNat?, n.toInt?, h.toInt? with
+    | some i, some c, some n, some h => some (.tdVote i c n h)
+    | _, _, _, _ => none
+  | ["trevoke", i, c, n, h] =>
+    match i.toNat?, c.toNat?, n.toInt?, h.toInt? with
+    | some i, some c, some n, some h => some (.tdRevokeVote i c n h)
+    | _, _, _, _ => none
   | _ => none
+
+/-- a `$tdpos` op line whose height field is `+`: a new block is sealed first and the call names the new tip -/
+def plusHeight (ws : List String) : Bool :=
+  match ws with
+  | "nominate" :: _ | "revnom" :: _ | "tvote" :: _ | "trevoke" :: _ => ws.getLast? == some "+"
+  | _ => false
 
 def step (st : Option World) (line : String) : Option World × String :=
   match words line with
@@ -97,6 +131,15 @@ def step (st : Option World) (line : String) : Option World × String :=
     | some pre => (some { pre := pre }, "ok")
     | none => (st, "bad-op")
   | ws =>
+    -- `+` is sugar for the two calls `seal`, then the call at the new tip; a malformed line seals nothing
+    let (st, ws) :=
+      match st with
+      | some w =>
+        if plusHeight ws then
+          let ws' := ws.dropLast ++ [toString (sealBlock w).tip]
+          if (parseCall ws').isSome then (some (sealBlock w), ws') else (st, ws)
+        else (st, ws)
+      | none => (st, ws)
     match st, parseCall ws with
     | some w, some c =>
       match step? w c with
